@@ -21,6 +21,11 @@ pub uninterp spec fn ev_created(path: String, fid: int) -> bool;
 pub fn file_write_all(f: &File, data: &Vec<u8>) -> (r: Result<(), io::Error>)
     ensures r is Ok ==> ev_wrote(f.fid(), data@)
 { unimplemented!() }
+/// `(&File).write(buf)`: may accept only a prefix of the buffer (std: "returns how many bytes were written")
+#[verifier::external_body]
+pub fn file_write(f: &File, data: &Vec<u8>) -> (r: Result<usize, io::Error>)
+    ensures r is Ok ==> r->Ok_0 <= data@.len() && ev_wrote(f.fid(), data@.take(r->Ok_0 as int))
+{ unimplemented!() }
 /// `OpenOptions::new().write(true).read(true).create_new(true).open(path)`
 #[verifier::external_body]
 pub fn file_create_new_rw(path: String) -> (r: Result<File, io::Error>)
